@@ -31,7 +31,7 @@
 (*          | [p: "partial", name, fields: Seq([label, pat: Opt(pattern)])]*)
 (*          | [p: "star", name] | [p: "pin", name] | [p: "type", type]     *)
 (*          | [p: "or", alts: Seq(pattern)] | [p: "as", type, name]        *)
-(*   type     [y: "int"] | [y: "bin"] | [y: "fn"] | [y: "cycle"]           *)
+(*   type     [y: "int"] | [y: "bin"] | [y: "fn"] | [y: "cycle"] | [y: "any"]*)
 (*          | [y: "alias", name] | [y: "union", types: Seq(type)]          *)
 (*          | [y: "tuple", name, partial: BOOLEAN,                         *)
 (*               fields: Seq([label, type])]                               *)
@@ -123,6 +123,7 @@ Inh(v, T, root, al) ==
   CASE T.y = "int" -> v.k = "int"
     [] T.y = "bin" -> v.k = "bin"
     [] T.y = "fn" -> v.k = "fn"
+    [] T.y = "any" -> TRUE                 \* a type variable of a generic function
     [] T.y = "union" -> \E i \in 1..Len(T.types) : Inh(v, T.types[i], root, al)
     [] T.y = "alias" -> T.name \in DOMAIN al /\ Inh(v, al[T.name], al[T.name], al)
     [] T.y = "cycle" -> Inh(v, root, root, al)
